@@ -11,6 +11,8 @@ package main
 
 import (
 	"bufio"
+	"crypto/sha256"
+	"encoding/hex"
 	"encoding/json"
 	"flag"
 	"fmt"
@@ -48,6 +50,7 @@ type CaseResult struct {
 	Failures   []Failure
 	Sample     any
 	Skipped    int
+	Observed   string // observables that must not depend on the process (C14): folded into Result.Digest
 }
 
 type Header map[string]any
@@ -76,6 +79,7 @@ type Result struct {
 	NFailures         int       `json:"n_failures"`
 	Samples           []any     `json:"samples"`
 	WallS             float64   `json:"wall_s"`
+	Digest            string    `json:"digest,omitempty"` // order-independent hash of all Observed strings
 }
 
 // parseTagged extracts <<"TAG", "json">> lines.
@@ -144,6 +148,7 @@ func main() {
 	start := time.Now()
 	res := Result{Family: *family, Property: *prop}
 	seen := map[string]bool{}
+	var digest [32]byte
 	var mu sync.Mutex
 	type job struct {
 		hdr Header
@@ -169,6 +174,12 @@ func main() {
 				res.Cases++
 				res.Evaluations += r.Evals
 				res.Skipped += r.Skipped
+				if r.Observed != "" {
+					h := sha256.Sum256([]byte(r.Key + "\x00" + r.Observed))
+					for i := range digest {
+						digest[i] ^= h[i]
+					}
+				}
 				if r.Nontrivial && r.Key != "" && !seen[r.Key] {
 					seen[r.Key] = true
 					res.DistinctNontrivil++
@@ -230,6 +241,9 @@ func main() {
 	wg.Wait()
 	sort.Slice(res.Failures, func(i, j int) bool { return res.Failures[i].Source < res.Failures[j].Source })
 	res.WallS = time.Since(start).Seconds()
+	if digest != [32]byte{} {
+		res.Digest = hex.EncodeToString(digest[:])
+	}
 	data, _ := json.MarshalIndent(res, "", " ")
 	if *out == "" {
 		os.Stdout.Write(data)
